@@ -7,7 +7,7 @@ import vcheck
 def main():
     spec, cfg, driver = sys.argv[1:4]
     kw = dict(a.split("=") for a in sys.argv[4:])
-    chk = vcheck.Check("DEV", "dev")
+    chk = vcheck.Check("DEV", "dev_%d" % os.getpid())
     tkw = {}
     if "simulate" in kw:
         tkw.update(simulate=int(kw["simulate"]), depth=int(kw.get("depth", 100)), seed=int(kw.get("seed", 1)))
@@ -39,8 +39,8 @@ def main():
         for v in o.get("drift", []):
             c["D:" + v["sig"]] += 1; ex.setdefault("D:" + v["sig"], (cs, v["detail"]))
     print("replayed", len(res), "nontrivial", sum(1 for e in res if (e.get("out") or {}).get("nontrivial")))
-    for k, v in c.most_common(60):
-        print(v, k, "::", (str(ex[k][1])[:400] if k in ex else ""))
+    for k, v in c.most_common(int(kw.get("top", 25))):
+        print(v, k, "::", (str(ex[k][1]).replace("\n", " ")[:260] if k in ex else ""))
     json.dump({k: ex[k][0] for k in ex}, open(os.path.join(chk.dir, "examples.json"), "w"), indent=1)
 
 main()
